@@ -305,7 +305,6 @@ namespace hgraph
         auto nested = checked_nested_view(view);
         nested.ensure_child_graph();
         single_nested_graph_bind_inputs(nested, evaluation_time);
-        single_nested_graph_bind_output(nested, evaluation_time);
         if (nested.context().options.start_child_on_start)
         {
             nested.child_graph().start(evaluation_time);
@@ -314,6 +313,11 @@ namespace hgraph
                 evaluation_time,
                 nested.context().spec.input_bindings);
         }
+        // Bind the forwarding output only once the child is started: a child node
+        // that is itself a nested graph binds its own forwarding output while it
+        // starts, so resolving earlier would latch an intermediate endpoint and the
+        // first evaluation would re-point it and report the output as modified.
+        single_nested_graph_bind_output(nested, evaluation_time);
         single_nested_graph_propagate_schedule(nested);
     }
 
